@@ -11,6 +11,8 @@ pub mod c13;
 pub mod c14;
 pub mod c15;
 pub mod c16;
+pub mod c17;
+pub mod c18;
 
 use crate::engine::Check;
 
@@ -31,6 +33,8 @@ pub fn get(prop: &str) -> Option<Box<dyn Check>> {
         "C13" => Some(Box::new(c13::AsmCheck::new(c13::Which::C13))),
         "C15" => Some(Box::new(c15::C15::new())),
         "C16" => Some(Box::new(c16::C16::new())),
+        "C17" => Some(Box::new(c17::C17::new())),
+        "C18" => Some(Box::new(c18::C18::new())),
         _ => None,
     }
 }
